@@ -141,10 +141,11 @@ def rev {α β γ : Type} (op : β → α → Res γ) : α → β → Res γ := 
 def relementwise {α β γ : Type} (op : β → α → Res γ) (xs : Col α) (o : Operand β) : Res (Col γ) :=
   elementwise (rev op) xs o
 
-/-- `__rmul__(other) = self.__mul__(other)`: computes `element * other`, NOT reversed; `mul` is
-    Python's `*` with the element on the left -/
-def rmul {α β γ : Type} (mul : α → β → Res γ) (xs : Col α) (o : Operand β) : Res (Col γ) :=
-  elementwise mul xs o
+/-- `__rmul__(other)`: like the other reflected operators it goes through `_elementwise_operation` with a reversing helper
+    (`_reverse_mul(y, x) = x * y`) and so computes `other * element`; `mul` is Python's `*` in the written order
+    (`other`'s element on the left).  (Until the repair of the operand order it delegated to `__mul__`.) -/
+def rmul {α β γ : Type} (mul : β → α → Res γ) (xs : Col α) (o : Operand β) : Res (Col γ) :=
+  elementwise (rev mul) xs o
 
 /-- `__radd__(other)`: its own three branches; `add` is Python's `+` in the written order
     (`other`'s element on the left) -/
